@@ -161,17 +161,46 @@ func scenarioC14(c *Ctx) {
 		name   string
 		prefix []Item
 		msg    Item // the board message the poller applies
+		model  bool // compared call by call with the small-step model
+		class  string
 	}
 	pairs := []pair{
 		// the invitation operation is answered while the poller applies a confirmation that creates nothing
-		{"result || plain-message", h[:1], h[2]},
+		{"result || plain-message", h[:1], h[2], false, "result || plain-message"},
 		// ... while the poller applies the LAST confirmation, which creates the commits operation
-		{"result || operation-producing-message", append(append([]Item{}, h[:1]...), h[2], h[3]), h[1]},
+		{"result || operation-producing-message", append(append([]Item{}, h[:1]...), h[2], h[3]), h[1], true, "result || operation-producing-message"},
+	}
+	if !c.Quick() {
+		// every (request kind, message kind) pair of the ceremony: the oldest pending operation is
+		// answered while the poller applies the next message of the history
+		idx := func(label string, k int) int { // index of the k-th message with this label
+			n := 0
+			for i, it := range h {
+				if it.Label == label {
+					if n == k {
+						return i
+					}
+					n++
+				}
+			}
+			panic("no such message " + label)
+		}
+		add := func(name string, upto int, class string) {
+			pairs = append(pairs, pair{name, h[:upto], h[upto], false, class})
+		}
+		add("result || commit (plain)", idx("commit", 1), "result || plain-message")
+		add("result || last commit (creates the deals operation)", idx("commit", w.N-1), "result || operation-producing-message")
+		add("result || last deal (creates the responses operation)", idx("deal", w.N-1), "result || operation-producing-message")
+		add("result || last response (creates the master-key operation)", idx("response", w.N-1), "result || operation-producing-message")
+		add("result || last master key (hand-over to signing)", idx("master", w.N-1), "result || plain-message")
+		add("result || batch proposal (creates the signing operation)", idx("start", 0), "result || operation-producing-message")
+		add("result || collecting partial signature (reconstruction, broadcast)", idx("partial", w.T-1), "result || plain-message")
 	}
 	switches := 2
 	if !c.Quick() {
 		switches = 3
 	}
+	_ = switches
 	explored := 0
 	for _, p := range pairs {
 		base := NewNodeEnv(newEnvDir(c), me)
@@ -227,7 +256,7 @@ func scenarioC14(c *Ctx) {
 				nb++
 			}
 		}
-		if p.name == "result || operation-producing-message" {
+		if p.model {
 			// the store-call sequences of the two sides, as labels of the small-step model
 			lab := func(who string) string {
 				var l []string
@@ -252,7 +281,7 @@ func scenarioC14(c *Ctx) {
 		for _, sc := range boundedSchedules(na, nb, switches) {
 			snap, tr := execute(sc, 0)
 			explored++
-			if p.name == "result || operation-producing-message" {
+			if p.model {
 				// the same schedule restricted to the calls on the two pool keys, on the model
 				var bits []byte
 				for _, t := range tr {
@@ -308,7 +337,7 @@ func scenarioC14(c *Ctx) {
 					}
 				}
 			}
-			fail("not-serialisable", map[string]interface{}{"pair": p.name, "symptom": symptom, "request_before": aBefore, "request_after": aAfter},
+			fail("not-serialisable", map[string]interface{}{"pair": p.class, "symptom": symptom, "request_before": aBefore, "request_after": aAfter},
 				fmt.Sprintf("%s: an interleaving is equivalent to neither sequential order (%s; the poller's pool write falls between the request's '%s' and '%s')", p.name, symptom, aBefore, aAfter),
 				map[string]interface{}{"pair": p.name, "schedule": fmt.Sprint(sc), "trace": tr, "observed": snap, "request_then_message": ab, "message_then_request": ba})
 		}
